@@ -31,6 +31,12 @@ class F(metaclass=TrueSingleton):
         LOG.append(("F", self, args, kwargs))
     def __len__(self):
         return 0
+class V(metaclass=TrueSingleton):
+    """construction can fail: __init__ validates its argument"""
+    def __init__(self, *args, **kwargs):
+        if not args:
+            raise ValueError("V needs a positional argument")
+        LOG.append(("V", self, args, kwargs))
 def _twin(tag):
     def __init__(self, *args, **kwargs):
         LOG.append((tag, self, args, kwargs))
@@ -39,7 +45,7 @@ def _twin(tag):
 S1 = _twin("S1")
 S2 = _twin("S2")
 '''
-CLASSES = ("A", "B", "C", "F", "S1", "S2")
+CLASSES = ("A", "B", "C", "F", "S1", "S2", "V")
 
 
 def run(ctx):
@@ -52,11 +58,17 @@ def run(ctx):
     common.own_rule(ctx, ["TrueSingleton.__singleton_instances"])
     h = H(ctx.src, [MOD])
     n = 0
-    for live in itertools.chain.from_iterable(itertools.combinations(CLASSES, k) for k in range(len(CLASSES) + 1)):
+    subsets = list(itertools.chain.from_iterable(itertools.combinations(CLASSES, k) for k in range(len(CLASSES) + 1)))
+    if not ctx.thorough:
+        subsets = [s_ for s_ in subsets if len(s_) <= 2 or len(s_) == len(CLASSES)] + [("A", "B", "C"), ("A", "B", "F", "S1")]
+    for live in subsets:
         ops = [("new", c, v) for c in CLASSES for v in (0, 1)] + [("clear", c, None) for c in CLASSES] + [("clear-all", None, None)]
         seqs = [(o,) for o in ops]
         if ctx.thorough:
             seqs += list(itertools.product(ops, repeat=2))
+        else:
+            ca = ("clear-all", None, None)
+            seqs += [(ca, ca), (("clear", "C", None), ca), (ca, ("clear", "A", None)), (("new", "V", 1), ("new", "V", 0)), (("new", "V", 1), ("clear", "V", None)), (("new", "V", 1), ca)]
         for seq in seqs:
             try:
                 why, sample = evaluate(h, live, seq)
@@ -74,7 +86,7 @@ def run(ctx):
                 cls = f"op={seq[0][0]},target-live={t0 in live if t0 else 'n/a'},target={tcls},others-live={len([c for c in live if c != t0]) > 0}"
                 res.violation("TABLE-STEP", qual, cls, f"live instances {list(live)}, operations {seq}: {why}", replay=replay(live, seq))
     res.rule("TABLE-STEP", n)
-    common.vacuity(res, "TABLE-STEP", 1000)
+    common.vacuity(res, "TABLE-STEP", 800)
     res.analysed = common.analysed(ctx, [MOD + ".clear_true_singleton", MOD + ".TrueSingleton.__call__"])
     res.explanation = "Every operation maps every reachable table state to the model's table state; induction gives the statement for all interleavings."
 
@@ -85,17 +97,20 @@ def evaluate(h, live, seq):
     h.w.mods.pop("verif_c18", None)
     g = m.globals
     h.settle()
+    h.gc_reset()
     I = h.I
     log = g["LOG"]
     table = {}
     clear = g["clear_true_singleton"]
 
-    def construct(c, variant):
+    def construct(c, variant, gc=False):
         args = [Tok(100 + variant, f"arg{variant}")] if variant != 1 else []       # "whatever arguments are passed": with and without
         kw = {"k": Tok(200 + variant, f"kw{variant}")} if variant != 9 else {}
         before = len(log.items)
         out = h.call(g[c], *args, **kw)
         new = log.items[before:]
+        if gc:
+            h.gc_step(list(table.values()))      # objects dropped by this call are collected; later allocations may live where they lived
         return out, new, args, kw
 
     # reach the pre-state through the public API
@@ -104,10 +119,16 @@ def evaluate(h, live, seq):
         if out.kind != "return" or not isinstance(out.value, Obj):
             return f"setting up: {c}() gives {out!r}", None
         table[c] = out.value
+    h.gc_step(list(table.values()))       # the heap as it is before the operations under test
     sample = {"live": list(live), "ops": [list(map(str, o)) for o in seq]}
     for op, c, variant in seq:
         if op == "new":
-            out, new, args, kw = construct(c, variant)
+            out, new, args, kw = construct(c, variant, gc=True)
+            if c == "V" and variant == 1 and c not in table:
+                # a first construction that fails (its __init__ rejects the arguments): the error reaches the caller, nothing is registered
+                if out.kind != "raise" or out.excname != "ValueError":
+                    return f"V() without its argument gives {out!r}; its __init__ raises ValueError", sample
+                continue
             if out.kind != "return":
                 return f"{c}(...) raises {out.excname}", sample
             v = out.value
@@ -129,11 +150,13 @@ def evaluate(h, live, seq):
                 return f"{c}(...) returned an instance of {v.cls.name if isinstance(v, Obj) else type(v).__name__}", sample
         elif op == "clear":
             out = h.call(clear, g[c])
+            h.gc_step(list(table.values()))
             if out.kind != "return":
                 return f"clear_true_singleton({c}) raises {out.excname}" + ("" if c in table else " although clearing a class without instance must be harmless"), sample
             table.pop(c, None)
         else:
             out = h.call(clear)
+            h.gc_step(list(table.values()))
             if out.kind != "return":
                 return f"clear_true_singleton() raises {out.excname}", sample
             table.clear()
@@ -158,10 +181,14 @@ def replay(live, seq):
          "class B(A):\n    def __init__(self, *a, **k): calls.append(('B', a, k))",
          "class C(metaclass=TrueSingleton):\n    def __init__(self, *a, **k): calls.append(('C', a, k))",
          "class F(metaclass=TrueSingleton):\n    def __init__(self, *a, **k): calls.append(('F', a, k))\n    def __len__(self): return 0",
+         "class V(metaclass=TrueSingleton):\n    def __init__(self, *a, **k):\n        if not a: raise ValueError('V needs an argument')\n        calls.append(('V', a, k))",
          "def _twin(tag):\n    def __init__(self, *a, **k): calls.append((tag, a, k))\n    return TrueSingleton('Service', (), {'__init__': __init__})", "S1 = _twin('S1'); S2 = _twin('S2')"]
     for c in live:
         L.append(f"i{c} = {c}('setup')")
     for op, c, v in seq:
+        if op == "new" and v == 1:
+            L.append(f"try:\n    r = {c}(k='kw1'); print(r, calls)\nexcept Exception as e: print('raised', type(e).__name__)")
+            continue
         L.append({"new": f"r = {c}('arg{v}', k='kw{v}'); print(r, calls)", "clear": f"clear_true_singleton({c})", "clear-all": "clear_true_singleton()"}[op])
-    L.append("print([(c.__name__, c('again')) for c in (A, B, C, F, S1, S2)], calls)")
+    L.append("print([(c.__name__, c('again')) for c in (A, B, C, F, S1, S2, V)], calls)")
     return "\n".join(L)
